@@ -158,6 +158,23 @@ def work(item):
     if p.returncode != 0 or len(out_j) != len(lines) or len(out_c) != len(lines):
         st.violation("harness-failed", dict(config=config, tag=tag), "both harnesses complete", (p.stderr.decode("utf-8", "replace") + err)[-1500:])
         return st
+    if tag.endswith(("0", "5")):
+        # the same stream dealt to 8 Java threads: every answer must be the one of the serial Java run (methods are static and documented pure)
+        jt = os.path.join(sdir, "out_%s_jt.txt" % tag)
+        pt_ = subprocess.run(["java", "-Xss16m", "-cp", jd, "com.github.tschoonj.xraylib.JHarness", cf, jt, "8"], stdout=subprocess.PIPE, stderr=subprocess.PIPE, timeout=3600)
+        out_t = open(jt, encoding="latin-1").read().split("\n") if os.path.exists(jt) else []
+        if out_t and out_t[-1] == "":
+            out_t.pop()
+        if pt_.returncode != 0 or len(out_t) != len(out_j):
+            st.violation("harness-failed", dict(config=config, tag=tag, what="threads"), "threaded Java run completes", pt_.stderr.decode("utf-8", "replace")[-1200:])
+        else:
+            for (fn, kinds, args), a1, a2 in zip(plan, out_j, out_t):
+                st.ev()
+                # objects are scribbled over after encoding: a call that returns shared state is caught by the serial comparison already
+                if a1 != a2:
+                    st.violation("java-threads-differ:" + fn, dict(config=config, fn=fn, args=[a if not isinstance(a, bytes) else a.decode("latin-1") for a in args]), a1[:160], a2[:160])
+                    break
+            st.cls("java_thread_runs")
     for (fn, kinds, args), oc, oj in zip(plan, out_c, out_j):
         st.ev()
         if oj.startswith("X\t"):
